@@ -1,5 +1,5 @@
 \* One scope, indexes <= 3, terms <= 2, batches of 1, one conf-change kind, two snapshot payloads.
-\* 4,522 distinct states, 277,655 generated; about 20 s with 4 workers on an idle machine (361,895 generated / 28 s with batches <= 2).
+\* 4,522 distinct states, 282,177 generated (with SaveFails); about 20 s with 4 workers on an idle machine (361,895 generated / 28 s with batches <= 2 before SaveFails).
 SPECIFICATION Spec
 CONSTANTS
   Scopes = {"s1"}
